@@ -204,3 +204,54 @@ for _w in ('schema', 'function'):
               'inputs / %d call shapes (valid and invalid), then a solver-picked parse whose outcome (value or error class and '
               'item) must equal that of a freshly created identical declaration' % (len(INPUTS), len(CALLS)))(
         (lambda w: lambda V: _history_independence(V, w))(_w))
+
+
+# ------------------------------------------------------------------ (c') history independence across the shared converter registry
+from utype.utils.transform import TypeTransformer  # noqa: E402
+
+_T_SNAP = list(TypeTransformer.registry._registry)
+
+
+@ob('history-independence/registry', marks=['done'], budget=(60, 200),
+    bounds='register a converter for a base class, optionally (solver bools) convert a subclass / the base / declare a Schema field of the '
+           'subclass in between, register a second converter for the base (or the subclass), then convert a solver-picked class: the '
+           'converter that runs must not depend on whether the in-between conversions happened')
+def history_registry(V):
+    def run(warm):
+        TypeTransformer.registry._registry[:] = _T_SNAP
+        TypeTransformer.registry._cache.clear()
+
+        class Money:
+            def __init__(self, v):
+                self.v = v
+
+        class Euro(Money):
+            pass
+        tag = lambda name: (lambda transformer, data, t, _n=name: t(_n))
+        utype.register_transformer(Money)(tag('first'))
+        if warm[0]:
+            utype.type_transform(1, Euro)
+        if warm[1]:
+            utype.type_transform(1, Money)
+        if warm[2]:
+            class Holder(Schema):
+                e: Euro = None
+        utype.register_transformer(Euro if second_on_sub else Money, allow_subclasses=allow_sub)(tag('second'))
+        target = Euro if convert_sub else Money
+        try:
+            return utype.type_transform(1, target).v
+        except Exception as e:  # noqa
+            return 'error:' + type(e).__name__
+    second_on_sub = V.bool('second_on_subclass')
+    allow_sub = V.bool('allow_subclasses')
+    convert_sub = V.bool('convert_subclass')
+    warm = (V.bool('warm_subclass'), V.bool('warm_base'), V.bool('declare_field'))
+    try:
+        got, want = run(warm), run((False, False, False))
+    finally:
+        TypeTransformer.registry._registry[:] = _T_SNAP
+        TypeTransformer.registry._cache.clear()
+    V.check(got == want, 'pure:outcome-depends-on-history:registry',
+            lambda: 'second registration on %s (allow_subclasses=%r), converting %s: after warm-up %r the converter %r ran, without warm-up %r' % (
+                'Euro' if second_on_sub else 'Money', allow_sub, 'Euro' if convert_sub else 'Money', warm, got, want))
+    V.cover('done')
